@@ -32,14 +32,17 @@ CHECKS = {
         "exploration",
         "runtime monitoring: structural scan of every TypedDict node in inferred/merged types, stored rows and rendered stubs against k",
         "Every anonymous TypedDict node in per-value and merged types (dicts of 0..12 keys, str/non-str/mixed, nested; k in "
-        "{0,1,2,3,10}) is measured against the limit; end-to-end rows and stub classes likewise.",
+        "{0,1,2,3,10}) is measured against the limit; end-to-end rows and stub classes likewise (random programs plus deterministic "
+        "shapes, also for stores written under a larger limit than the stub's, under every way of choosing the rewriter); sessions of six "
+        "tracing blocks in one interpreter sharing a logger / Config object while the limit changes: each logged trace against the limit of its block.",
         "The statement itself is the model (all keys str, 1 <= size <= k).",
         "6 C06",
     ),
     "C07": (
         "exploration",
         "runtime monitoring: canonical-inhabitant conformance oracle + trigger predicates over the real TypeRewriter.rewrite calls",
-        "Every grammar type up to the node bound (exhaustive), sampled types/unions beyond and types inferred from values are fed to "
+        "Every grammar type up to the node bound (exhaustive), unions built around each rewriter's trigger in every member order, sampled "
+        "types/unions beyond and types inferred from values are fed to "
         "each shipped rewriter, the default chain stage by stage and ordered pairs through ChainedRewriter: no exception, every "
         "canonical inhabitant and real witness of the input still admitted, result structurally unchanged unless the documented "
         "trigger is present.",
@@ -51,7 +54,8 @@ CHECKS = {
         "runtime monitoring: encode/decode round trips of generated types and CallTraces judged by the structural-equality oracle",
         "Inferable types (grammar-complete to the node bound, sampled beyond, inferred from values at every k, rewritten forms) and "
         "CallTraces over fixture functions of every kind are round-tripped through type_to_json/type_from_json, CallTraceRow and "
-        "SQLiteStore; decoded objects compared structurally; encodings of independently built structurally identical types compared.",
+        "SQLiteStore, after a hostile decode history (failed look-ups of name prefixes, a module created after its failed look-up) in the "
+        "same interpreter; decoded objects compared structurally; encodings of independently built structurally identical types compared.",
         "Trusts vf/oracle/rt.py; Tuple[T, ...] / Generator are outside the statement's domain.",
         "6 C08",
     ),
@@ -62,7 +66,8 @@ CHECKS = {
         "against a Python-set model; every SQLite VM step of a batch insert is an abort point, sampled/all VM steps are SIGKILL "
         "points, every pwrite64/fdatasync/unlink occurrence is a SIGKILL/EIO/ENOSPC point; after each the file is reopened and read "
         "through an independent connection: every batch all-or-none, acknowledged batches present, integrity_check ok; concurrent "
-        "readers must never see a partial batch; commit orders are recorded.",
+        "readers must never see a partial batch; commit orders are recorded; writers on fresh connections per batch; 400+-row batches "
+        "with sampled interruption points; a write lock held by another connection around the busy timeout.",
         "Crash = process kill / syscall error, not power loss; SQLite itself is trusted to implement rollback-journal recovery.",
         "6 C09",
     ),
@@ -73,7 +78,8 @@ CHECKS = {
         "really-suspending coroutines, run under the real trace_calls; the sequence of logger.log calls is aligned offline, in "
         "completion order, with the interpreter's own event stream (PY_START/RESUME/YIELD/RETURN/THROW/UNWIND): exactly one trace per "
         "resolvable completed call, right function, argument types as bound at call start, return type iff returned, yield type = "
-        "union of yields, no residue in CallTracer.traces; a control run without the recorder must log the same sequence.",
+        "union of yields, no residue in CallTracer.traces; a control run without the recorder must log the same sequence; twin modules, "
+        "functions sharing a definition site (reload after edit, generated methods), calls around a value whose type cannot be collected.",
         "sys.monitoring (CPython 3.12.1) is trusted as the account of what ran; get_type is judged by C04/C05, not here.",
         "6 C02",
     ),
@@ -83,7 +89,8 @@ CHECKS = {
         "The C02 programs (always with generators that rebind parameters between yields) run at rates {None,1,2,3,10,100} under many "
         "seeds of the global RNG: rates None/1 must equal the C02 expectation; at rates > 1 every logged trace must faithfully match a "
         "real completion in order (argument types at PY_START), nothing may stay in tracer.traces, and the traced fraction of plain "
-        "calls must be within 6 sigma of 1/N over >= 20000 calls.",
+        "calls must be within 6 sigma of 1/N over >= 20000 calls (globally, and per function in fixed call patterns incl. calls right after "
+        "frames no function can be found for); long loops at rates 100, 1000, 3 and 7.",
         "As C02.",
         "6 C18",
     ),
@@ -94,7 +101,8 @@ CHECKS = {
         "on every loaded function, on user files reached through symlinks / relative paths and on synthetic names, without and with "
         "allow-lists of 0..3 names (one interpreter each), and compared with an os.path oracle; generated scripts are run with "
         "`monkeytype run` under default, allow-list and custom-filter configs and the rows in the store compared with the functions "
-        "admitted and called (none from __main__, none rejected, every admitted one).",
+        "admitted and called (none from __main__, none rejected, every admitted one); sessions of six tracing blocks in one interpreter "
+        "sharing a logger / Config object with a different custom filter per block: logged == called & accepted, per block.",
         "The filter reads only co_filename; sysconfig roots of this installation.",
         "6 C17",
     ),
@@ -106,7 +114,8 @@ CHECKS = {
         "container elements/keys/values, receivers, module globals, same-named globals, class attributes, callable locals of callers); the "
         "workload runs untraced and traced in fresh interpreters: results, stdout and the program's own hook calls must be equal and no "
         "journal entry may have a monkeytype frame on its stack. Single and double faults (log/flush/get_type/get_func raising, values whose "
-        "inspection raises) x block exit x pre-installed profiler: nothing escapes, profiler restored, flush exactly once.",
+        "inspection raises) x block exit x pre-installed profiler: nothing escapes, the block's own exception still propagates, profiler "
+        "restored, flush exactly once.",
         "A hook invoked with a monkeytype frame on the stack is user code run by the tracer; `monkeytype` logger output is not program output.",
         "6 C03",
     ),
@@ -116,15 +125,17 @@ CHECKS = {
         "CallTraces with grammar types over classes spread across modules whose names are dotted/textual suffixes of one another, nested "
         "classes, a class named like its module, _io types, TypedDicts at every container position (k>0), generator yields, are rendered "
         "through build_module_stubs_from_traces; every annotation string is evaluated with only the stub's imports, class definitions, "
-        "builtins and the target's own classes and must equal the handed-in type structurally; every import of the stub must succeed.",
+        "builtins and the target's own classes and must equal the handed-in type structurally (source annotations with spelled-out callable "
+        "signatures and None defaults included); every import of the stub must succeed; generated class names may collide only where the "
+        "documented naming scheme is itself ambiguous (listed finding).",
         "vf/oracle/stubeval.py is the reference reading of stub text; no-op rewriter and one trace per function fix the handed-in type.",
         "6 C11",
     ),
     "C12": (
         "exploration",
         "runtime monitoring: signature-comparison oracle (ast of the rendered stub vs inspect.signature of the live function) over generated modules traced for real",
-        "Generated modules with every function kind and parameter-kind pattern, defaults incl. None, names forcing line wrapping, classes two "
-        "levels deep, coroutine functions and generators; random subsets traced through the real trace_calls or constructed CallTraces; the "
+        "Generated modules with every function kind and parameter-kind pattern, defaults incl. None, names forcing line wrapping, classes up to three "
+        "levels deep (also namespace-only enclosing classes), coroutine functions and generators; random subsets traced through the real trace_calls or constructed CallTraces; the "
         "rendered module stub must parse, contain exactly the traced functions inside their classes, with the right decorator / async, the "
         "same parameter names, kinds, order and default presence as the live function, and an unannotated receiver.",
         "inspect.signature and ast are the reference.",
@@ -153,7 +164,8 @@ CHECKS = {
     "C10": (
         "exploration",
         "runtime monitoring: differential observation of the real CLI (stub / stub -v / apply in fresh interpreters) on a store with stale rows versus a copy holding the decodable rows only",
-        "Stores mixing valid rows with every kind of stale row (12 mutation kinds, subsets up to 3, shuffled orders, duplicates, and stores "
+        "Stores mixing valid rows (incl. rows of one function that disagree on parameter names, and classes of live modules whose names extend a "
+        "removed module's) with every kind of stale row (17 mutation kinds, local-scope qualnames, subsets up to 3, shuffled orders, duplicates, and stores "
         "where nothing decodes) are given to `stub`, `stub -v` and `apply` against the mutated package: exit status 0, stdout / rewritten "
         "file equal (up to union member order) to the run on the decodable rows alone, skipped count or one warning per skipped row on "
         "stderr, 'No traces found' when nothing decodes.",
